@@ -21,6 +21,11 @@ through the whole skip-list lattice on the real `save(skip=...)` / `load(skip=..
           introspection, snapshotted before anything is saved, restored in place before every work item and compared after
           every history ("a save must not depend on earlier saves"; a changed mutable is a failure class of its own).
 
+  hybrid    : a nested object that is both AutoSerialize and torch.nn.Module, reached through an attribute: six name sets x
+          when {save, load, both} x store. The serializer stores it whole through torch.save, so skipped names survive inside
+          it: a registered KNOWN finding, emitted under its own class (relation=skip_reaches_nested_object,
+          nested_kind=autoserialize_and_nn_module); anything else that differs on that graph gets another class.
+
 Oracle: a fresh in-memory build of the graph with the named attributes (and the attributes that are
 instances of a listed type) deleted at every level reached through attributes, compared with the C01
 structural-equality relation — survivors are compared for equality, not just presence; dict keys and
@@ -294,6 +299,69 @@ def eval_types(item, seed=0, scratch="/tmp"):
         t.fail(cls, case, msg)
     if len(item["types"]) == 2 and not item.get("name"):
         t.sample({"family": "types", "types": item["types"], "store": item["store"], "observed": "equal to the in-memory graph without instances of these types" if not f else f"{len(f)} failure(s)"}, cap=1)
+    return t
+
+
+# ----------------------------------------------------------------------------- hybrid nested object (known finding)
+# A nested object that is BOTH AutoSerialize and torch.nn.Module, reached through an attribute. The serializer's
+# dispatch takes the nn.Module branch first and stores it whole through torch.save, so skip names are not applied
+# inside it. By the letter of the property that is a violation; it is registered as a known finding. This family
+# emits exactly one failure class for it (relation=skip_reaches_nested_object, nested_kind=autoserialize_and_nn_module)
+# and a DIFFERENT class for anything else that goes wrong on the same graph.
+def hybrid_graph_desc():
+    L, C, O = S.L, S.C, S.O
+    hyb = O("HybridInner", a=L("i0"), arr=L("arr:i16:(3,)"), s=L("s"), w=L("t_param"), lst=C("list", L("i-1"), L("s")))
+    mid = O("Mid", a=L("f0.5"), arr=L("arr:f64:(3,)"), b=C("list", L("i-1"), L("i0")))
+    return O("Top", a=L("i2^40"), arr=L("arr:i16:(2, 3)"), hyb=hyb, mid=mid, name=L("s_unicode"))
+
+
+HYBRID_GRAPH = hybrid_graph_desc()
+HYBRID_NAME_SETS = [["a"], ["arr"], ["a", "arr"], ["s"], ["lst", "a"], ["zzz"]]
+HYBRID_PATH = "top.hyb"
+
+
+def run_hybrid(case, seed, scratch):
+    """{"names": [...], "when": save|load|both, "store": s}. Returns (fails, outcome, nontrivial)."""
+    names, when, store = case["names"], case["when"], case["store"]
+    state_restore()
+    exp = S.build(HYBRID_GRAPH, seed)
+    removed = prune(exp, set(names), ())
+    fails = []
+    label = f"hybrid graph {S.show(HYBRID_GRAPH)} store={store} when={when} skip names={names}"
+    with S.Workdir(scratch, "C14") as wd:
+        st, y = S.save_load(
+            S.build(HYBRID_GRAPH, seed), wd, store, name="hy",
+            save_kw={"skip": list(names)} if when in ("save", "both") else {},
+            load_kw={"skip": list(names)} if when in ("load", "both") else {},
+        )
+    if st != "ok":
+        fails.append(({"relation": "skip_names_hybrid_graph", "when": when, "symptom": st, "exc": type(y).__name__}, f"{label}: {st.replace('_', ' ')} {type(y).__name__}: {str(y)[:200]}"))
+        return fails, [st], removed > 0
+    recs = S.diff(exp, y, slack=True, root="top", limit=40)
+    known, other = [], []
+    for r in recs:
+        is_known = (
+            r["what"] == "attr_set" and r["path"] == HYBRID_PATH and not r.get("missing")
+            and r.get("extra") and set(r["extra"]) <= set(names)
+        )
+        (known if is_known else other).append(r)
+    if known:
+        cls = {"relation": "skip_reaches_nested_object", "nested_kind": "autoserialize_and_nn_module", "when": when, "what": "attr_set", "direction": "not_removed"}
+        fails.append((cls, f"{label}: at {HYBRID_PATH}: the skipped name(s) {known[0]['extra']} are still present inside the nested hybrid object (AutoSerialize and torch.nn.Module, stored whole by torch.save); expected: absent at every attribute-nested level"))
+    for r in other:
+        fails.append((dict(_cls(r, "skip_names_hybrid_graph", when), position=r["position"]), f"{label}: loaded object differs from the in-memory graph with those attributes removed, outside the known hybrid defect: {S.fmt([r])}"))
+    return fails, S.summary(y), removed > 0
+
+
+def eval_hybrid(item, seed=0, scratch="/tmp"):
+    t = Tally()
+    case = dict(item, family="hybrid", seed=seed)
+    f, outcome, nontrivial = run_hybrid(case, seed, scratch)
+    t.case(key=["hybrid", item["names"], item["when"], item["store"]], nontrivial=nontrivial, outcome=outcome)
+    t.extra["hybrid_points"] += 1
+    t.extra["hybrid_points_showing_the_known_defect"] += int(any(c.get("relation") == "skip_reaches_nested_object" for c, _ in f))
+    for cls, msg in f:
+        t.fail(cls, case, msg)
     return t
 
 
@@ -637,6 +705,8 @@ def run(ctx):
                 for st in STORES:
                     titems.append({"types": [tn], "name": n, "name_when": nw, "store": st})
     m2 = ctx.pmap(eval_types, titems, chunk=4, label="type lists", seed=ctx.seed, scratch=ctx.scratch)
+    yitems = [{"names": n, "when": w, "store": st} for n in HYBRID_NAME_SETS for w in ("save", "load", "both") for st in STORES]
+    m4 = ctx.pmap(eval_hybrid, yitems, chunk=1, label="hybrid nested object", seed=ctx.seed, scratch=ctx.scratch)
     hitems = enumerate_save_histories(ctx.quick)
     m3 = ctx.pmap(eval_save_history, hitems, chunk=2, label="save histories", seed=ctx.seed, scratch=ctx.scratch)
     ctx.coverage.update(
@@ -648,6 +718,10 @@ def run(ctx):
         bounds={"name_subsets": len(subs), "type_subsets_max_size": 2, "type_subsets": len(tsubs), "name_x_type_pairs": len(TYPE_NAMES) * len(UNIVERSE) * 2, "disjoint_pairs": npairs},
         relations=["skip_names (when=save: the recorded list is honoured by a plain load)", "load_time_equals_save_time", "skip_types",
                    "history:save_independent_of_earlier_saves", "history:from_file_attribute_names", "history:module_level_state_unchanged"],
+        hybrid_nested_object={
+            "graph": S.show(HYBRID_GRAPH), "name_sets": HYBRID_NAME_SETS, "when": ["save", "load", "both"], "points": int(m4.extra["hybrid_points"]),
+            "points_showing_the_known_defect": int(m4.extra["hybrid_points_showing_the_known_defect"]),
+        },
         save_histories={
             "length": 2 if ctx.quick else 3, "autoserialize_configurations": {k: {"names": v[0], "types": v[1]} for k, v in A_CONFIGS.items()},
             "ptychography_configurations": {k: {"names": v[0], "types": v[1]} for k, v in P_CONFIGS.items()}, "ptychography_problem": P_CFG,
@@ -660,6 +734,8 @@ def run(ctx):
         raise Broken(f"enumeration incomplete: {m1.extra['name_points']} name points, {m2.extra['type_points']} type points")
     if int(m3.extra["save_histories_autoserialize"]) + int(m3.extra["save_histories_ptychography"]) != len(hitems) or len(m3.outcomes) < 10:
         raise Broken(f"save-history enumeration degenerate: {dict(m3.extra)}, {len(m3.outcomes)} outcomes for {len(hitems)} histories")
+    if int(m4.extra["hybrid_points"]) != len(yitems):
+        raise Broken(f"hybrid family incomplete: {m4.extra['hybrid_points']} of {len(yitems)} points")
     if not any("default#" in x for x in slots):
         ctx.seam_missing.append("no mutable default argument found in the watched modules (introspection of function defaults)")
     if len(m1.outcomes) < 20 or len(m2.outcomes) < 10:
@@ -669,6 +745,21 @@ def run(ctx):
 def replay(ctx, case):
     seed = case.get("seed", ctx.seed)
     print(f"  graph: {S.show(GRAPH)}")
+    if case["family"] == "hybrid":
+        import importlib
+
+        for mn in STATE_MODULES:
+            importlib.import_module(mn)
+        state_snapshot()
+        f, outcome, _ = run_hybrid(case, seed, ctx.scratch)
+        for cls, msg in f:
+            ctx.fail(cls, case, msg)
+        exp = S.build(HYBRID_GRAPH, seed)
+        prune(exp, set(case["names"]), ())
+        print(f"  graph: {S.show(HYBRID_GRAPH)}  skip names={case['names']} when={case['when']} store={case['store']}")
+        print(f"  expected attributes of top.hyb: {sorted(k for k in vars(exp.hyb) if not k.startswith('_'))}")
+        print(f"  observed: {str(outcome)[:500]}")
+        return
     if case["family"] == "save_history":
         import importlib
 
